@@ -362,8 +362,7 @@ class RTree(Core):
                 return
             if nm == "template" and "template-unsupported" not in self.sw:
                 raise NotModelled("template")
-            if nm in ("base", "basefont", "bgsound", "link", "meta", "noframes", "script", "style", "title") or \
-                    (nm == "command" and "command-is-void-in-head" in self.sw):
+            if nm in ("base", "basefont", "bgsound", "link", "meta", "noframes", "script", "style", "title"):
                 self.stack.append(self.head)
                 r = self.m_in_head(t)
                 if self.head in self.stack:
